@@ -126,8 +126,38 @@ def atom_relation(atom, row):
     return None, None
 
 
+def _split_verdict_returns(fn):
+    """`return ok, why` with `ok, why = super().isVisible(...)` hands on whatever the base class decided: for the
+    path analysis it is the two returns `return True, why` (when ok) and `return False, why` (otherwise)."""
+    import copy
+
+    from rsa.alpha import _blocks
+
+    flags = set()
+    for n in walk_no_nested(fn.node):
+        if isinstance(n, ast.Assign) and isinstance(n.targets[0], ast.Tuple) and len(n.targets[0].elts) == 2 and isinstance(n.value, ast.Call) and isinstance(n.value.func, ast.Attribute) and n.value.func.attr == "isVisible" and isinstance(n.targets[0].elts[0], ast.Name):
+            flags.add(n.targets[0].elts[0].id)
+    changed = False
+    for _owner, blk in _blocks(fn.node):
+        for i, st in enumerate(blk):
+            if isinstance(st, ast.Return) and isinstance(st.value, ast.Tuple) and len(st.value.elts) == 2 and isinstance(st.value.elts[0], ast.Name) and st.value.elts[0].id in flags:
+                flag, why = st.value.elts
+                t_ret = ast.copy_location(ast.Return(value=ast.Tuple(elts=[ast.Constant(value=True), copy.deepcopy(why)], ctx=ast.Load())), st)
+                f_ret = ast.copy_location(ast.Return(value=ast.Tuple(elts=[ast.Constant(value=False), copy.deepcopy(why)], ctx=ast.Load())), st)
+                new = ast.copy_location(ast.If(test=ast.UnaryOp(op=ast.Not(), operand=copy.deepcopy(flag)), body=[f_ret], orelse=[]), st)
+                for x in (new, t_ret):
+                    ast.fix_missing_locations(x)
+                blk[i : i + 1] = [new, t_ret]
+                changed = True
+                break
+    if changed and hasattr(fn, "_cfg"):
+        del fn._cfg
+    return changed
+
+
 def analyse_isvisible(p, fn, owner, r_cov, r_bind, r_pol):
     """Rules R2-R4 on one isVisible implementation."""
+    _split_verdict_returns(fn)
     cfg = cfg_of(fn)
     defs = single_defs(fn.node)
     # tuple-unpacked results of super().isVisible(...) / helper calls
@@ -225,7 +255,7 @@ def analyse_isvisible(p, fn, owner, r_cov, r_bind, r_pol):
                     for n, rel, w in row_atoms[k]:
                         if w == alt:
                             edges.append((n.id, False) if rel == "fail" else (n.id, True))
-                    if alt not in seen_alts or not cfg.must_pass(rt.id, via_edges=edges):
+                    if alt not in seen_alts or not cfg.must_pass_feasible(rt.id, via_edges=edges):
                         ok = False
                         r_cov.violation(
                             f"{fn.qualname}:{k}",
@@ -251,7 +281,7 @@ def analyse_isvisible(p, fn, owner, r_cov, r_bind, r_pol):
                     # edge label on which the platform is NOT the row's platform
                     lab_other = (not eq) if (is_space == want_space) else eq
                     edges.append((n.id, lab_other))
-            if cfg.must_pass(rt.id, via_edges=edges):
+            if cfg.must_pass_feasible(rt.id, via_edges=edges):
                 r_cov.ok(cons, f"every path to `return True` passes {k}", fn.loc(rt.ast))
             else:
                 w = cfg.witness_path(rt.id, blocked_edges=edges)
@@ -666,22 +696,53 @@ def rule_r6(chk, p, t):
     col = p.func(f"{SENSOR}.collectObservations")
 
     def two():
-        comps = [n for n in walk_no_nested(col.node) if isinstance(n, ast.ListComp)]
-        bg = [c for c in comps if any(isinstance(x, ast.Call) and call_name(x) == "attemptObservation" for x in ast.walk(c))]
-        require(len(bg) == 1, "no background comprehension over attemptObservation", col.node)
-        c = bg[0]
-        att = [x for x in ast.walk(c) if isinstance(x, ast.Call) and call_name(x) == "attemptObservation"][0]
-        prim = [x for x in find_calls(col.node, "attemptObservation") if x is not att]
+        # the background attempts: a comprehension over the background list, or the equivalent loop
+        all_att = find_calls(col.node, "attemptObservation")
+        pmap = parents_map(col.node)
+
+        def enclosing(x, kinds):
+            cur = x
+            while cur in pmap:
+                cur = pmap[cur]
+                if isinstance(cur, kinds):
+                    return cur
+            return None
+
+        bg = []
+        for a_ in all_att:
+            comp = enclosing(a_, (ast.ListComp, ast.GeneratorExp))
+            loop = enclosing(a_, (ast.For,))
+            if comp is not None:
+                bg.append((a_, comp.generators[0].target, comp.generators[0].iter, "comp", comp))
+            elif loop is not None:
+                bg.append((a_, loop.target, loop.iter, "loop", loop))
+        require(len(bg) == 1, "no background comprehension / loop over attemptObservation", col.node)
+        att, var, it, form, host = bg[0]
+        prim = [x for x in all_att if x is not att]
         require(len(prim) == 1, "no primary attempt", col.node)
-        if unparse(att.args[1]) == unparse(prim[0].args[1]) and unparse(att.args[0]) == c.generators[0].target.id and unparse(c.generators[0].iter) == col.params[3]:
-            r.ok(col.qualname + ":background-pointing", "background attempts use the commanded pointing over background_agents", col.loc(c))
+        if unparse(att.args[1]) == unparse(prim[0].args[1]) and isinstance(var, ast.Name) and unparse(att.args[0]) == var.id and unparse(it) == col.params[3]:
+            r.ok(col.qualname + ":background-pointing", "background attempts use the commanded pointing over background_agents", col.loc(host))
         else:
-            r.violation(col.qualname + ":background-pointing", f"bg:{unparse(att)}", f"background attempt `{unparse(att)}` does not use the primary's pointing over the background list", col.loc(c))
-        filt = any(isinstance(x, ast.Call) and call_name(x) == "isinstance" and "Observation" in unparse(x) and "Missed" not in unparse(x) for i in c.generators[0].ifs for x in ast.walk(i))
+            r.violation(col.qualname + ":background-pointing", f"bg:{unparse(att)}", f"background attempt `{unparse(att)}` does not use the primary's pointing over the background list", col.loc(host))
+        if form == "comp":
+            filt = any(isinstance(x, ast.Call) and call_name(x) == "isinstance" and "Observation" in unparse(x) and "Missed" not in unparse(x) for i in host.generators[0].ifs for x in ast.walk(i))
+        else:
+            # loop form: whatever is appended to the reported list is control-dependent on `isinstance(<attempt>, Observation)`
+            cfgc = cfg_of(col)
+            defs_l = {}
+            for n in ast.walk(host):
+                if isinstance(n, ast.Assign) and len(n.targets) == 1 and isinstance(n.targets[0], ast.Name) and n.value is att:
+                    defs_l[n.targets[0].id] = att
+            apps = [c for c in ast.walk(host) if isinstance(c, ast.Call) and call_name(c) in ("append", "extend") and c.args and (c.args[0] is att or (isinstance(c.args[0], ast.Name) and c.args[0].id in defs_l))]
+            filt = bool(apps)
+            for c in apps:
+                conds = [(unparse(cfgc.nodes[cid].ast), lab) for cid, lab in cfgc.control_conditions(cfgc.node_of(c).id) if cfgc.nodes[cid].kind == "cond"]
+                if not any(txt.startswith("isinstance(") and "Observation" in txt and "Missed" not in txt and lab is True for txt, lab in conds):
+                    filt = False
         if filt:
-            r.ok(col.qualname + ":background-filter", "only Observation results are kept", col.loc(c))
+            r.ok(col.qualname + ":background-filter", "only Observation results are kept", col.loc(host))
         else:
-            r.violation(col.qualname + ":background-filter", "bg-filter", "background misses are not filtered out of the reported observations", col.loc(c))
+            r.violation(col.qualname + ":background-filter", "bg-filter", "background misses are not filtered out of the reported observations", col.loc(host))
 
     r.guard(col.qualname + ":background", two)
 
